@@ -30,8 +30,8 @@ ID = "C13"
 LEVEL = "exploration"
 TECHNIQUE = ("bounded exhaustive enumeration of deviation-bounded parameter lattices on the real burn-time solvers, "
              "every lattice point and every pair of lattice points judged by an independent oracle (explicit-state exploration, mode L)")
-CLAIM = ("Every admissible parameter vector within K deviations of the default (Kenamond1, DSD cylindrical expansion: the full "
-         "product; Kenamond3: the full product; Kenamond2: K=3 quick / K=4 thorough) is constructed and called on a "
+CLAIM = ("Every admissible parameter vector within K deviations of the default (Kenamond1, Kenamond3, DSD cylindrical expansion: the full "
+         "product; Kenamond2: K=3 quick / K=4 thorough) is constructed and called on a "
          "polar point lattice with interface, detonator, shadow-boundary and straddling points; detonation-time, causality, eikonal "
          "(three finite-difference steps), continuity and the all-pairs Lipschitz consequence are evaluated on every point / pair. "
          "Exhaustive over the stated alphabet; right level because the property is a pointwise and pairwise invariant of closed-form "
